@@ -1423,16 +1423,106 @@ fn run_c(rep: &Reporter, cov: &mut Coverage) -> (Value, bool) {
 
 // ------------------------------------------------------------------------------------------------
 
+/// D: resources that are not (yet) part of a store, made by every public constructor: the conversions and the text
+/// length must already be exact on them, under every milestone interval
+fn run_d(rep: &Reporter, cov: &mut Coverage) -> Value {
+    let texts = ["", "a", "\u{e9}", "a\u{e9}\u{20ac}\u{1d11e}b", "\u{1d11e}\u{1d11e}", "ab\u{e9}"];
+    let intervals = [0usize, 1, 2, 3, 7, 100];
+    let dir = crate::util::work_dir("c12d");
+    let _ = std::fs::create_dir_all(&dir);
+    let mut n = 0u64;
+    let mut calls = 0u64;
+    for (ti, text) in texts.iter().enumerate() {
+        let txt = format!("{}/t{}.txt", dir, ti);
+        std::fs::write(&txt, text).expect("write text file");
+        let jsonfile = format!("{}/t{}.json", dir, ti);
+        std::fs::write(&jsonfile, format!("{{\"@type\":\"TextResource\",\"@id\":\"t{}\",\"text\":{}}}", ti, serde_json::to_string(text).unwrap())).expect("write json file");
+        for interval in intervals {
+            let cfg = || Config::default().with_milestone_interval(interval);
+            let makers: Vec<(&str, Box<dyn Fn() -> Result<TextResource, StamError>>)> = vec![
+                ("from_string", Box::new(|| Ok(TextResource::from_string("t", text.to_string(), cfg())))),
+                ("new+with_string", Box::new(|| Ok(TextResource::new("t", cfg()).with_string(text.to_string())))),
+                ("from_file(txt)", Box::new(|| TextResource::from_file(&txt, cfg()))),
+                ("from_file(json)", Box::new(|| TextResource::from_file(&jsonfile, cfg()))),
+            ];
+            for (mname, make) in makers {
+                n += 1;
+                let case = || json!({"standalone": {"text": text, "interval": interval, "constructor": mname}});
+                let fail = |symptom: String, detail: String| {
+                    rep.fail(&format!("standalone|{}|{}|multibyte={}", mname, symptom, text.len() != text.chars().count()), (ti * 100 + interval) as u64, || format!("text={:?} interval={} via {}: {}", text, interval, mname, detail), case);
+                };
+                let res = match catch(|| make()) {
+                    Ok(Ok(r)) => r,
+                    Ok(Err(e)) => {
+                        if !text.is_empty() {
+                            fail(format!("constructor-err:{}", msg_class(&format!("{}", e))), format!("{}", e));
+                        }
+                        continue;
+                    }
+                    Err(p) => {
+                        fail(format!("constructor-panic:{}", msg_class(&p)), p.clone());
+                        continue;
+                    }
+                };
+                let chars: Vec<(usize, char)> = text.char_indices().collect();
+                let len = chars.len();
+                calls += 1;
+                if res.textlen() != len {
+                    fail("textlen".into(), format!("textlen() = {}, the text has {} codepoints", res.textlen(), len));
+                }
+                if res.text() != *text {
+                    fail("text".into(), format!("text() = {:?}", res.text()));
+                }
+                for p in 0..=len + 2 {
+                    calls += 1;
+                    let want = if p < len { Some(chars[p].0) } else if p == len { Some(text.len()) } else { None };
+                    match catch(|| res.utf8byte(p)) {
+                        Ok(Ok(b)) if Some(b) == want => {}
+                        Ok(Err(_)) if want.is_none() => {}
+                        Ok(r) => fail(format!("utf8byte:{}", if p > len { "beyond" } else if p == len { "at-end" } else { "inside" }), format!("utf8byte({}) = {:?}, expected {:?}", p, r.map_err(|e| format!("{}", e)), want)),
+                        Err(m) => fail(format!("utf8byte:panic:{}", msg_class(&m)), format!("utf8byte({}) panicked", p)),
+                    }
+                }
+                for x in 0..=text.len() + 2 {
+                    calls += 1;
+                    let want = if x == text.len() { Some(len) } else { chars.iter().position(|(b, _)| *b == x) };
+                    match catch(|| res.utf8byte_to_charpos(x)) {
+                        Ok(Ok(c)) if Some(c) == want => {}
+                        Ok(Err(_)) if want.is_none() => {}
+                        Ok(r) => fail(format!("utf8byte_to_charpos:{}", if x > text.len() { "beyond" } else if x == text.len() { "at-end" } else if want.is_none() { "inside-codepoint" } else { "boundary" }), format!("utf8byte_to_charpos({}) = {:?}, expected {:?}", x, r.map_err(|e| format!("{}", e)), want)),
+                        Err(m) => fail(format!("utf8byte_to_charpos:panic:{}", msg_class(&m)), format!("utf8byte_to_charpos({}) panicked", x)),
+                    }
+                }
+                // end-aligned and whole offsets resolve against the cached length
+                for (oname, off, b, e) in [("whole", Offset::whole(), 0usize, len), ("last", Offset::new(Cursor::EndAligned(-(len.min(1) as isize)), Cursor::EndAligned(0)), len - len.min(1), len)] {
+                    calls += 1;
+                    let want: String = text.chars().skip(b).take(e - b).collect();
+                    match catch(|| res.text_by_offset(&off).map(|t| t.to_string())) {
+                        Ok(Ok(t)) if t == want => {}
+                        Ok(r) => fail(format!("text_by_offset:{}", oname), format!("text_by_offset({}) = {:?}, expected {:?}", oname, r.map_err(|e| format!("{}", e)), want)),
+                        Err(m) => fail(format!("text_by_offset:panic:{}", msg_class(&m)), format!("text_by_offset({}) panicked", oname)),
+                    }
+                }
+            }
+        }
+    }
+    let _ = std::fs::remove_dir_all(&dir);
+    cov.states += n;
+    cov.transitions += calls;
+    json!({"sweep": "D", "standalone_resources": n, "texts": texts, "milestone_intervals": intervals, "constructors": ["from_string", "new+with_string", "from_file(txt)", "from_file(json)"]})
+}
+
 pub fn run(rep: &Reporter) -> Coverage {
     let mut cov = Coverage::default();
     let mut space = run_a(rep, &mut cov);
     space.push(run_b(rep, &mut cov));
     let (c, exhaustive) = run_c(rep, &mut cov);
     space.push(c);
+    space.push(run_d(rep, &mut cov));
     cov.traces_validated = cov.states;
     cov.evaluations = cov.transitions;
     cov.exhaustive = exhaustive;
-    cov.rule = "A: every (text, set of annotated ranges, milestone interval, shrink_to_fit, receiver) with receiver = the resource, every sub-selection [b,e) and the ResultItem<TextSelection> of every annotated range; on each, utf8byte(p) for every p up to two past the end of the resource and utf8byte_to_charpos(x) for every byte x up to two past the end, compared with counting char_indices, Err required beyond the receiver's text and inside a codepoint, both round trips on the valid domain. B: every (text, set of annotated ranges) x 24 configurations; the observation battery must equal the one under the default configuration (annotation-independent kinds: of the store without annotations). C: every distinct state of the history exploration replayed under 5 other intervals and its JSON document loaded under 11 other (interval, shrink) pairs. states = receivers (A) + stores (B) + history states (C); transitions = library calls; non-trivial = (A) receivers of a text with a multi-byte codepoint whose resource has milestones or annotated positions in the index, (B) annotated stores over a text with a multi-byte codepoint, (C) states with a removed and a live annotation".into();
+    cov.rule = "A: every (text, set of annotated ranges, milestone interval, shrink_to_fit, receiver) with receiver = the resource, every sub-selection [b,e) and the ResultItem<TextSelection> of every annotated range; on each, utf8byte(p) for every p up to two past the end of the resource and utf8byte_to_charpos(x) for every byte x up to two past the end, compared with counting char_indices, Err required beyond the receiver's text and inside a codepoint, both round trips on the valid domain. B: every (text, set of annotated ranges) x 24 configurations; the observation battery must equal the one under the default configuration (annotation-independent kinds: of the store without annotations). C: every distinct state of the history exploration replayed under 5 other intervals and its JSON document loaded under 11 other (interval, shrink) pairs. D: resources outside any store made by each public constructor (from_string, new+with_string, from_file of a text file and of a STAM JSON file) x 6 texts x 6 intervals: textlen, text, utf8byte and utf8byte_to_charpos at every position up to two past the end, whole and last-codepoint offsets. states = receivers (A) + stores (B) + history states (C); transitions = library calls; non-trivial = (A) receivers of a text with a multi-byte codepoint whose resource has milestones or annotated positions in the index, (B) annotated stores over a text with a multi-byte codepoint, (C) states with a removed and a live annotation".into();
     cov.extra.insert("space".into(), Value::Array(space));
     cov.assumptions = vec![
         "a position or byte offset beyond the end of a sub-selection counts as beyond the text of that receiver (the conversion functions on selections are documented as relative to the selection): Err is required; such cases carry the position class beyond-selection so that they can be told apart from positions beyond the resource".into(),
@@ -1452,6 +1542,12 @@ fn known_from(v: &Value) -> Vec<R> {
 
 /// Re-execute one recorded case without the sweep.
 pub fn replay(rep: &Reporter, case: &Value) {
+    if case.get("standalone").is_some() {
+        println!("replay C12 standalone resources: {}", case["standalone"]);
+        let mut cov = Coverage::default();
+        run_d(rep, &mut cov);
+        return;
+    }
     let kind = case["kind"].as_str().unwrap_or("");
     let cfg = Cfg::from_json(&case["config"]);
     match kind {
